@@ -245,6 +245,18 @@ def run_unit(unit):
                    do_cardinal=first or bool(omat or imat))
         if first:
             linearity(part, o, rows_w, dict(word=unit['word'], stop=unit['stop'], variant=v))
+        if first or omat or imat:
+            # history: every query was just made on this lens object; now replace the first glass through set_index and ask again
+            gi = next((i for i, s_ in enumerate(sp['surfs']) if s_['mat'] not in ('air', 'mirror')), None)
+            if gi is not None:
+                import copy as _copy
+                sp2 = _copy.deepcopy(sp)
+                sp2['surfs'][gi]['mat'] = ['ideal', 1.68, 0.0]
+                o.set_index(1.68, gi + 1)
+                part.transitions += 1
+                rows2 = prescription.rows(sp2, lambda m, prev: LZ.ref_index(m, 0.5876, prev))
+                check_lens(part, o, rows2, dict(word=unit['word'], stop=unit['stop'], variant=v, after='set_index(1.68)'),
+                           dict(obj=obj, ap=list(ap), ftype=ft, obj_mat=omat, img_mat=imat), ap, ft, obj, mf, do_cardinal=True)
         first = False
     part.sample(dict(word=unit['word'], stop=unit['stop'], surfaces=[s['shape'] + ':' + str(s['mat']) for s in surfs]))
     return part
